@@ -1,23 +1,29 @@
 #!/bin/bash
-# usage: guardsweep.sh [first [last]]  — delete each guard in turn (bin/guardmut) in a scratch copy of /repo and
+# usage: [MODE=ops] guardsweep.sh [first [last]]  — delete each guard in turn (MODE=ops: flip the strictness of each comparison,
+# and skip mutants the existing test suite already kills) (bin/guardmut) in a scratch copy of /repo and
 # record which checks report a violation. Output: one line per guard: index, site, condition, detecting checks.
 export GOFLAGS=-mod=mod GOPROXY=off GOSUMDB=off GOTOOLCHAIN=local; unset GOWORK
-first=${1:-0}; last=${2:-100000}
+first=${1:-0}; last=${2:-100000}; mflag=""; [ "$MODE" = ops ] && mflag="-ops"
 d=$(mktemp -d /tmp/gsweep.XXXXXX); sv=$(mktemp -d /tmp/gsweepv.XXXXXX)
 trap 'rm -rf "$d" "$sv"' EXIT
 rsync -a --exclude .git /repo/ "$d/"
 cp /verif/known_findings.json /verif/properties.jsonl "$sv/"
-n=$(/verif/bin/guardmut -repo "$d" -list | wc -l)
+n=$(/verif/bin/guardmut -repo "$d" $mflag -list | wc -l)
 for i in $(seq $first $((n-1))); do
   [ $i -gt $last ] && break
-  site=$(/verif/bin/guardmut -repo "$d" -apply $i)
+  site=$(/verif/bin/guardmut -repo "$d" $mflag -apply $i)
   file=${site%%:*}
   if ! (cd "$d" && go build ./... >/dev/null 2>&1); then
     echo -e "$i\t$site\tNOCOMPILE"; cp "/repo/$file" "$d/$file"; continue
   fi
-  props="C01 C02 C03 C04 C05 C06 C07 C09 C10 C11 C12 C14 C15 C16 C17 C18 C19 C20"
-  case "$file" in codecs/*) props="$props C08";; esac
-  for p in $props; do ( ${RTPCHECK_BIN:-/verif/bin/rtpcheck} -prop $p -repo "$d" -verif "$sv" > "$sv/$p.out" 2>&1; echo $? > "$sv/$p.rc" ) & done; wait
+  if [ "$MODE" = ops ]; then
+    if (cd "$d" && go test -vet=off -count=1 ./... 2>&1 | grep -qE '^(FAIL|--- FAIL|panic)'); then
+      echo -e "$i\t$site\tKILLED-BY-SUITE"; cp "/repo/$file" "$d/$file"; continue
+    fi
+  fi
+  props=$(/verif/tools/props_for_files.sh "$file")
+  skip=""; case "$file" in codecs/av1*) ;; *) skip=AV1Payloader;; esac
+  for p in $props; do ( RTPCHECK_SKIP=$skip ${RTPCHECK_BIN:-/verif/bin/rtpcheck} -prop $p -repo "$d" -verif "$sv" > "$sv/$p.out" 2>&1; echo $? > "$sv/$p.rc" ) & done; wait
   det=""
   for p in $props; do rc=$(cat "$sv/$p.rc"); [ "$rc" = 1 ] && det="$det $p:$(grep -m1 -E '^  violation:' "$sv/$p.out" | sed -E 's/^  violation: ([^|]+)\|.*/\1/')"; [ "$rc" = 2 ] && det="$det $p(fail)"; done
   echo -e "$i\t$site\t${det:- NONE}"
